@@ -186,7 +186,7 @@ func verifSame(a, b []string) bool {
 // afterwards every result name has ≤ 64 and every category name ≤ 36
 // characters, the flow's structure (UUIDs, node order, exits, destinations)
 // is unchanged and a second application changes nothing.
-// cover: result-truncated, category-truncated, untouched, multibyte
+// cover: result-truncated, category-truncated, untouched, multibyte, router-without-result-name
 func VerifC16_Names() {
 	verifFaultAt = [2]int{-1, -1}
 	which := zzverif.Choice("which-name", 4)
@@ -202,6 +202,11 @@ func VerifC16_Names() {
 		ac = verifLongName("action-category", 35+zzverif.Choice("length", 5), 3)
 	}
 	f := verifFlow(rn, cn, an, ac)
+	// a router need not save a result: its category names are limited all the same
+	if which == 1 && zzverif.Choice("router-saves-no-result", 2) == 1 {
+		delete(f.Nodes()[0].Router(), "result_name")
+		zzverif.Cover("router-without-result-name")
+	}
 	before := verifStructure(f)
 	out, err := Migrate13_6(f, DefaultConfig)
 	zzverif.Assert(err == nil, "Migrate13_6 failed on a valid definition")
@@ -211,10 +216,11 @@ func VerifC16_Names() {
 		r := n1.Router()
 		cat := r["categories"].([]any)[0].(map[string]any)
 		a := n1.Actions()[1]
-		return []string{r["result_name"].(string), cat["name"].(string), a["name"].(string), a["category"].(string)}
+		rname, _ := r["result_name"].(string)
+		return []string{rname, cat["name"].(string), a["name"].(string), a["category"].(string)}
 	}
 	got := names(out)
-	in := []string{rn, cn, an, ac}
+	in := []string{names(f)[0], cn, an, ac}
 	limits := []int{64, 36, 64, 36}
 	for i := range got {
 		zzverif.Assert(utf8.RuneCountInString(got[i]) <= limits[i], "a name is longer than the definition limit after Migrate13_6")
